@@ -89,6 +89,7 @@ Emit == (EmitCases /\ st = 1) =>
     LET J == IdxSeq(ca.gt.n, 1)
         I == E([k \in 1..Len(J) |-> SrcIndex(ca.src.g, ca.gt, J[k])]) IN
     PrintT(ToJson([src |-> ca.src, gt |-> ca.gt, pad |-> ca.pad,
+                   src_origin |-> Origin(ca.src.g), gt_origin |-> Origin(ca.gt),
                    index |-> I,
                    linear |-> E([k \in 1..Len(J) |-> Linear(ca.src, I[k], ca.pad)]),
                    nearest |-> E([k \in 1..Len(J) |-> Nearest(ca.src, I[k], ca.pad)]),
